@@ -1,1 +1,100 @@
-From Verif Require Import Base.Harness Model.OracleRound Model.AggHistory.
+(* C08 — Aggregate history is append-only, time-ordered and correctly retrievable.
+   Property theorems only; proofs live in Proofs/AggHistoryProofs.v. *)
+From Coq Require Import ZArith List Bool String Permutation.
+From Verif Require Import Base.Harness Model.OracleRound Model.OracleRoundCheck Model.AggHistory
+  Proofs.OracleRoundProofs Proofs.OracleRoundInv Proofs.AggHistoryProofs.
+Import ListNotations.
+Open Scope Z_scope.
+
+(* over every history of tips, reports, end blockers, governance updates and dispute/evidence flags
+   (block time strictly increasing from end blocker to end blocker, no two rounds of one query closing
+   in one block):
+   - the store stays sorted by (query, timestamp) and key-unique (oinv),
+   - along each query's chronological list the sequence numbers are 1, 2, 3, ... and the nonce store
+     holds their count; timestamps strictly increase along that list because it is sorted (chrono),
+   - every aggregate that was ever stored is still stored, identical except that its flag may have
+     been raised, and a raised flag is explained by a flag operation naming exactly the report that
+     determined the aggregate (hist_rel). *)
+Theorem C08_history_append_only_time_ordered qinfos ops s T :
+  oinv s -> chrono s T -> good_run qinfos s ops T ->
+  oinv (hrun qinfos s ops) /\ chrono (hrun qinfos s ops) (last_time ops T) /\ hist_rel ops s (hrun qinfos s ops).
+Proof. exact (hrun_correct qinfos ops s T). Qed.
+Print Assumptions C08_history_append_only_time_ordered.
+
+(* timestamps strictly increase along the chronological list of a query *)
+Theorem C08_timestamps_strictly_increase q l : aggs_sorted l -> key_sorted _ ag_ts (hist q l).
+Proof. exact (hist_sorted q l). Qed.
+Print Assumptions C08_timestamps_strictly_increase.
+
+(* one end blocker: the new aggregate of a query is the last of its chronological list *)
+Theorem C08_new_aggregate_is_last s h ts m T :
+  aggs_sorted (o_aggs s) -> chrono s T ->
+  (forall b, In b (hist (m_qid m) (o_aggs s)) -> ag_ts b < ts) -> T <= ts ->
+  (forall q, map ag_nonce (hist q (o_aggs (aggregate_round s h ts m))) = zseq 1 (List.length (hist q (o_aggs (aggregate_round s h ts m))))) /\
+  (forall q, nonce_get q (o_nonces (aggregate_round s h ts m)) = Z.of_nat (List.length (hist q (o_aggs (aggregate_round s h ts m))))) /\
+  (forall a, In a (o_aggs (aggregate_round s h ts m)) -> ag_ts a <= ts) /\
+  hist (m_qid m) (o_aggs (aggregate_round s h ts m)) = hist (m_qid m) (o_aggs s) ++ [mk_agg s h ts m] /\
+  (forall q, q <> m_qid m -> hist q (o_aggs (aggregate_round s h ts m)) = hist q (o_aggs s)).
+Proof. exact (aggregate_round_chrono s h ts m T). Qed.
+Print Assumptions C08_new_aggregate_is_last.
+
+(* the lookups against the chronological list [hist q l] of a sorted store *)
+Theorem C08_current q l a : aggs_sorted l ->
+  (current q l = Some a <-> In a (hist q l) /\ forall b, In b (hist q l) -> ag_ts b <= ag_ts a).
+Proof. intros Hs. exact (current_spec q l Hs a). Qed.
+Print Assumptions C08_current.
+
+Theorem C08_data_before_skips_flagged q l t a : aggs_sorted l ->
+  (agg_before q t l = Some a <->
+   In a (hist q l) /\ ag_ts a < t /\ ag_flagged a = false /\
+   forall b, In b (hist q l) -> ag_ts b < t -> ag_flagged b = false -> ag_ts b <= ag_ts a).
+Proof. intros Hs. exact (agg_before_spec q l Hs t a). Qed.
+Print Assumptions C08_data_before_skips_flagged.
+
+Theorem C08_by_index q l i : 0 <= i -> by_index q i l = nth_error (hist q l) (Z.to_nat i).
+Proof. exact (by_index_spec q l i). Qed.
+Print Assumptions C08_by_index.
+
+Theorem C08_by_timestamp q l t a : aggs_sorted l -> (by_timestamp q t l = Some a <-> In a (hist q l) /\ ag_ts a = t).
+Proof. intros Hs. exact (by_timestamp_spec q l Hs t a). Qed.
+Print Assumptions C08_by_timestamp.
+
+Theorem C08_timestamp_before q l t x : aggs_sorted l ->
+  (ts_before q t l = Some x <->
+   exists a, In a (hist q l) /\ ag_ts a = x /\ x < t /\ forall b, In b (hist q l) -> ag_ts b < t -> ag_ts b <= x).
+Proof. intros Hs. exact (ts_before_spec q l Hs t x). Qed.
+Print Assumptions C08_timestamp_before.
+
+Theorem C08_timestamp_before_none q l t : aggs_sorted l ->
+  (ts_before q t l = None <-> forall b, In b (hist q l) -> t <= ag_ts b).
+Proof. intros Hs. exact (ts_before_none q l Hs t). Qed.
+Print Assumptions C08_timestamp_before_none.
+
+Theorem C08_timestamp_after q l t x : aggs_sorted l ->
+  (ts_after q t l = Some x <->
+   exists a, In a (hist q l) /\ ag_ts a = x /\ t < x /\ forall b, In b (hist q l) -> t < ag_ts b -> x <= ag_ts b).
+Proof. intros Hs. exact (ts_after_spec q l Hs t x). Qed.
+Print Assumptions C08_timestamp_after.
+
+Theorem C08_timestamp_after_none q l t : aggs_sorted l ->
+  (ts_after q t l = None <-> forall b, In b (hist q l) -> ag_ts b <= t).
+Proof. intros Hs. exact (ts_after_none q l Hs t). Qed.
+Print Assumptions C08_timestamp_after_none.
+
+(* a dispute flags at most the aggregates it names, and only raises flags *)
+Theorem C08_flag_only_named q r hh l b : In b (flag q r hh l) -> exists a, In a l /\ kept a b /\
+  (ag_flagged b = true -> ag_flagged a = true \/ (ag_qid a = q /\ ag_agg_reporter a = r /\ ag_micro_height a = hh)).
+Proof. exact (flag_in q r hh l b). Qed.
+Print Assumptions C08_flag_only_named.
+
+(* non-vacuity: two rounds of one query, then a dispute against the first *)
+Example C08_example :
+  let qi := [{| qi_id := 5; qi_kind := KSpot |}] in
+  let v := "00000000000000000000000000000000000000000000000000000000000000aa" in
+  let ops := [HRound 1 (OEndBlock 1000); HRound 2 (OSubmit 5 7 (Some 2000000) 1000000 v); HRound 3 (OEndBlock 2000); HRound 4 (OEndBlock 3000);
+              HRound 5 (OSubmit 5 7 (Some 2000000) 1000000 v); HRound 6 (OEndBlock 4000); HRound 7 (OEndBlock 5000); HFlag 5 (-1) (-1)] in
+  let s := hrun qi (genesis [5] 2 2000) ops in
+  map ag_nonce (o_aggs s) = [1; 2] /\ map ag_flagged (o_aggs s) = [true; false] /\
+  option_map ag_nonce (agg_before 5 6000 (o_aggs s)) = Some 2 /\ option_map ag_nonce (agg_before 5 4000 (o_aggs s)) = None /\
+  ts_before 5 4000 (o_aggs s) = Some 2000 /\ ts_after 5 2000 (o_aggs s) = Some 4000.
+Proof. vm_compute. repeat split; reflexivity. Qed.
